@@ -2,9 +2,9 @@
 # tools/seedtest.sh <seed-dir> <Cnn> [tier]: apply seeded/<dir>/patch.diff to /repo, run the check, undo.
 d=/verif/seeded/$1; id=$2; tier=${3:-quick}
 cd /repo || exit 2
-[ -z "$(git status --porcelain --untracked-files=no)" ] || { echo "repo dirty" >&2; exit 2; }
+[ -z "$(git status --porcelain)" ] || { echo "repo dirty" >&2; exit 2; }
 git apply "$d/patch.diff" || { echo "patch does not apply"; exit 2; }
 out=$(/verif/run "$id" "$tier" 2>&1); rc=$?
-git checkout -- .
+git checkout -- . ; git clean -fdq
 echo "$out" | grep -E '^(VIOLATION|  symptom|C[0-9]+ (quick|thorough))' | head -8 | cut -c1-300
 [ $rc -eq 1 ] && echo "SEED CAUGHT by $id $tier: $1" || echo "SEED MISSED by $id $tier (rc=$rc): $1"
